@@ -52,3 +52,64 @@ silent("C66", "rename-locals",
 silent("C66", "sets-inside-try",
        [(DR, "    token_fixed_decomps = _fixed_decomps_var.set(_new_fixed_decomps)\n\n    try:\n        yield\n    finally:\n        _decompositions_var.reset(token_all_decomps)\n        _fixed_decomps_var.reset(token_fixed_decomps)",
              "    token_fixed_decomps = _fixed_decomps_var.set(_new_fixed_decomps)\n\n    try:\n        yield\n    finally:\n        _fixed_decomps_var.reset(token_fixed_decomps)\n        _decompositions_var.reset(token_all_decomps)")])
+
+# ------------------------------------------------------------------------------------------ C41
+Q = "pennylane/core/queuing.py"
+TAPE = "pennylane/tape/tape.py"
+fire("C41", "tape-exit-pop-after-process-queue",
+     (TAPE, "        QueuingManager.remove_active_queue()\n        QuantumTape._lock.release()\n        self._process_queue()",
+            "        self._process_queue()\n        QueuingManager.remove_active_queue()\n        QuantumTape._lock.release()"),
+     "R-C41-stack", "QuantumTape.__exit__")
+fire("C41", "tape-enter-raising-call-after-push",
+     (TAPE, "        QueuingManager.append(self)\n        QueuingManager.add_active_queue(self)\n        return self",
+            "        QueuingManager.add_active_queue(self)\n        QueuingManager.append(self)\n        return self"),
+     "R-C41-stack", "QuantumTape.__enter__")
+fire("C41", "push-from-plain-method",
+     (Q, "    def append(self, obj, **kwargs):\n        \"\"\"Append ``obj`` into the queue with ``kwargs`` metadata.\"\"\"",
+         "    def start(self):\n        QueuingManager.add_active_queue(self)\n\n    def append(self, obj, **kwargs):\n        \"\"\"Append ``obj`` into the queue with ``kwargs`` metadata.\"\"\""),
+     "R-C41-stack", "AnnotatedQueue.start")
+fire("C41", "stop_recording-restore-outside-finally",
+     (Q, "        try:\n            yield\n        finally:\n            cls._active_contexts = previously_active_contexts",
+         "        yield\n        cls._active_contexts = previously_active_contexts"),
+     "R-C41-stack", "stop_recording")
+fire("C41", "stop_recording-keeps-outer-contexts",
+     (Q, "        cls._active_contexts = []\n        try:", "        cls._active_contexts = previously_active_contexts[:-1]\n        try:"),
+     "R-C41-inner", "stop_recording")
+fire("C41", "active-context-bottom-of-stack",
+     (Q, "return cls._active_contexts[-1] if cls.recording() else None", "return cls._active_contexts[0] if cls.recording() else None"),
+     "R-C41-inner", "active_context")
+fire("C41", "external-stack-write",
+     (TAPE, "        self._process_queue()\n        self._trainable_params = None",
+            "        self._process_queue()\n        QueuingManager._active_contexts.clear()\n        self._trainable_params = None"),
+     "R-C41-stack", "QuantumTape.__exit__")
+fire("C41", "symbolicop-queue-keeps-base",
+     ("pennylane/ops/op_math/symbolicop.py", "        context.remove(self.base)\n        context.append(self)", "        context.append(self)"),
+     "R-C41-own", "SymbolicOp")
+fire("C41", "qubitization-queue-keeps-hamiltonian",
+     ("pennylane/templates/subroutines/qubitization.py", "        context.remove(self.hyperparameters[\"hamiltonian\"])\n", ""),
+     "R-C41-own", "Qubitization")
+fire("C41", "select-init-keeps-ops",
+     ("pennylane/templates/subroutines/select.py", "        for op in ops:\n            QueuingManager.remove(op)\n", ""),
+     "R-C41-own", "Select")
+fire("C41", "qsvt-queue-keeps-projectors",
+     ("pennylane/templates/subroutines/qsvt.py", "        for op in self._hyperparameters[\"projectors\"]:\n            context.remove(op)\n", ""),
+     "R-C41-own", "QSVT")
+fire("C41", "composite-queue-appends-twice",
+     ("pennylane/ops/op_math/composite.py", "                context.remove(op)\n            context.append(self)\n",
+      "                context.remove(op)\n            context.append(self)\n        context.append(self)\n"),
+     "R-C41-own", "CompositeOp.queue")
+fire("C41", "operator-queue-conditional-append",
+     ("pennylane/core/operator/base.py", "        context.append(self)\n        return self  # so pre-constructed Observable instances can be queued and returned in a single statement",
+      "        if self.wires:\n            context.append(self)\n        return self  # so pre-constructed Observable instances can be queued and returned in a single statement"),
+     "R-C41-own", "Operator.queue")
+fire("C41", "apply-queues-original",
+     (Q, "    with QueuingManager.stop_recording():\n        op = copy.copy(op)\n", ""),
+     "R-C41-apply", "apply")
+silent("C41", "symbolicop-queue-append-then-remove",
+       [("pennylane/ops/op_math/symbolicop.py", "        context.remove(self.base)\n        context.append(self)", "        context.append(self)\n        context.remove(self.base)")])
+silent("C41", "tape-exit-release-lock-first",
+       [(TAPE, "        QueuingManager.remove_active_queue()\n        QuantumTape._lock.release()\n        self._process_queue()",
+               "        QuantumTape._lock.release()\n        QueuingManager.remove_active_queue()\n        self._process_queue()")])
+silent("C41", "qsvt-queue-single-loop",
+       [("pennylane/templates/subroutines/qsvt.py", "        context.remove(self._hyperparameters[\"UA\"])\n        for op in self._hyperparameters[\"projectors\"]:\n            context.remove(op)\n",
+         "        for op in [self._hyperparameters[\"UA\"], *self._hyperparameters[\"projectors\"]]:\n            context.remove(op)\n")])
